@@ -72,6 +72,7 @@ struct tyname<T*>
 };
 
 static bool g_cur_straddle = false; // the pointee object of the current state extends past the end of the region
+static bool g_cur_downcast_start = false;
 // check one produced pointer
 template<class T>
 static void chk(const char* tr, const char* tyn, uint64_t off, const std::string& arg, tn<T*> r)
@@ -83,6 +84,7 @@ static void chk(const char* tr, const char* tyn, uint64_t off, const std::string
     std::string sg = std::string("C03 step=") + tr + " pointee=" + tyn + " from=" + (off == ~0ull ? "null" : "inside");
     if (g_cur_straddle && strncmp(tr, "&p->", 4) == 0) sg = "C03 step=&p->field from=struct-straddling-region-end";
     if (g_cur_straddle && strncmp(tr, "&(*p)[", 6) == 0) sg = "C03 step=&(*p)[k] from=array-straddling-region-end";
+    if (g_cur_downcast_start && strncmp(tr, "static_cast<Derived", 19) == 0) sg = "C03 step=static_cast<Derived*>(Base*) from=base-subobject-at-region-start";
     if (g_cur_straddle && strncmp(tr, "static_cast<Base", 16) == 0) sg = "C03 step=static_cast<Base*>(Derived*) from=object-straddling-region-end";
     viol(sg, std::string("step|") + tyn + "|" + st + "|" + tr + "|" + arg,
          std::string("from ") + tyn + "* at " + st + ", " + tr + "(" + arg + ") returned a tainted pointer to " + where(p));
@@ -191,12 +193,17 @@ struct CBaseA { long x; };
 struct CBaseB { long y; };
 struct CDerived : CBaseA, CBaseB { long z; };
 template<> struct tyname<CDerived> { static constexpr const char* n = "CDerived"; };
+template<> struct tyname<CBaseB> { static constexpr const char* n = "CBaseB"; };
 static void derived_cast_state(uint64_t off)
 {
   n_states++;
   g_cur_straddle = off != ~0ull && off + sizeof(CDerived) > kSize;
   step<CDerived>("static_cast<BaseB*>", off, "", [&] { chk<CBaseB>("static_cast<BaseB*>", "CDerived", off, "", rlbox::sandbox_static_cast<CBaseB*>(mkp<CDerived>(off))); });
   step<CDerived>("static_cast<BaseA*>", off, "", [&] { chk<CBaseA>("static_cast<BaseA*>", "CDerived", off, "", rlbox::sandbox_static_cast<CBaseA*>(mkp<CDerived>(off))); });
+  // the opposite direction: a (guest-supplied) BaseB* in the first bytes of the region, cast down to Derived* (BaseB lives at +sizeof(CBaseA))
+  g_cur_downcast_start = off != ~0ull && off < sizeof(CBaseA);
+  step<CBaseB>("static_cast<Derived*>", off, "", [&] { chk<CDerived>("static_cast<Derived*>", "CBaseB", off, "", rlbox::sandbox_static_cast<CDerived*>(mkp<CBaseB>(off))); });
+  g_cur_downcast_start = false;
 }
 
 // ---- pointer-to-pointer dereference: cell at `off` holds every boundary representation ---------
@@ -416,7 +423,7 @@ int main(int argc, char** argv)
     else if (f[0] == "deref") { std::vector<uint64_t> reps{ strtoull(f[1].c_str(), nullptr, 10) }; deref_state<int>(0x400, reps); }
     else if (f[0] == "step") {
       uint64_t off = f[2] == "null" ? ~0ull : strtoull(f[2].c_str(), nullptr, 10);
-      if (f[1] == "CDerived") derived_cast_state(off);
+      if (f[1] == "CDerived" || f[1] == "CBaseB") derived_cast_state(off);
       for_types(tl<C03_TYPES>{}, [&](auto* tp) {
         using T = std::remove_pointer_t<decltype(tp)>;
         if (f[1] != tyname<T>::n && f[1] != tyname<T*>::n) return;
